@@ -1002,6 +1002,17 @@ fn corpus() -> Vec<Case> {
         c(t(&[("a", "\nx 1", false)]), "y && a || a\n"),
         c(t(&[("a", "\nx 1", false), ("b", "a", false)]), "y && b\n"),
         c(t(&[("a", "\nx 1", false)]), "y; a\ny & a\n"),
+        // the operands of `command` (and of the declaration utilities, whose
+        // name decides how the following words are parsed) are not in command
+        // position: an alias name there is substituted only behind a blank-ending alias
+        c(t(&[("a", "x", false)]), "command a\n"),
+        c(t(&[("a", "x", false)]), "command command a a\n"),
+        c(t(&[("a", "x", false)]), "v=1 command a\n>f command a\n"),
+        c(t(&[("a", "x", false)]), "command -v a; command -p a\n"),
+        c(t(&[("a", "x", false)]), "export a; readonly a; typeset a; local a\n"),
+        c(t(&[("a", "x", false)]), "command export a=1 a\n"),
+        c(t(&[("a", "x", false), ("c", "command ", false)]), "c a a\n"),
+        c(t(&[("a", "x", false), ("command", "y", false)]), "command a\n"),
         // quoted names are not aliases; assignments and redirections do not end command position
         c(t(&[("a", "x", false)]), "'a' \\a \"a\" a\n"),
         c(t(&[("a", "x", false)]), "v=1 a a; >f a a; v=1 >f a\n"),
